@@ -11,11 +11,11 @@ ID = 'C09'
 LEAN_MODULE = 'PncProofs.C09'
 LEAN_FILE = 'PncProofs/C09.lean'
 NAMESPACE = 'Props.C09'
-LEAN_CONE = ['PncModel.Words', 'PncModel.Camx.Landuse', 'PncModel.Camx.WindRead', 'PncModel.Camx.CloudRainRead', 'PncModel.Camx.BoundaryRead', 'PncModel.Camx.UamivRead', 'PncProofs.WindLemmas', 'PncProofs.CloudRainLemmas', 'PncProofs.BoundaryLemmas', 'PncModel.Camx.Uamiv', 'PncModel.Camx.Slab', 'PncProofs.WordsLemmas', 'PncProofs.LanduseLemmas', 'PncProofs.LanduseThms', 'PncProofs.UamivLemmas', 'PncProofs.C09']
+LEAN_CONE = ['PncModel.Generated.UamivLayouts', 'PncModel.Words', 'PncModel.Camx.Landuse', 'PncModel.Camx.WindRead', 'PncModel.Camx.CloudRainRead', 'PncModel.Camx.BoundaryRead', 'PncModel.Camx.UamivRead', 'PncProofs.WindLemmas', 'PncProofs.CloudRainLemmas', 'PncProofs.BoundaryLemmas', 'PncModel.Camx.Uamiv', 'PncModel.Camx.Slab', 'PncProofs.WordsLemmas', 'PncProofs.LanduseLemmas', 'PncProofs.LanduseThms', 'PncProofs.UamivLemmas', 'PncProofs.C09']
 LEMMA_FILES = ['PncProofs/WordsLemmas.lean', 'PncProofs/UamivLemmas.lean', 'PncProofs/LanduseLemmas.lean', 'PncProofs/LanduseThms.lean']
 REQUIRED_THEOREMS = ['tiles', 'header_counts', 'refDecode_encode', 'slab_tiles', 'slab_record_content', 'cloud_rain_tiles',
                      'cloud_rain_counts', 'wind_tiles', 'wind_step_shape', 'boundary_tiles', 'boundary_counts',
-                     'landuse_tiles', 'landuse_counts', 'landuse_read', 'wind_read', 'cloud_rain_read', 'boundary_read']
+                     'landuse_tiles', 'landuse_counts', 'landuse_read', 'wind_read', 'cloud_rain_read', 'boundary_read', 'uamiv_layout_matches_source']
 RULE = ('uamiv files (all four NAME variants, 1-3 species with names up to 10 characters, nx, ny 1-4, nz 1-3, '
         '1-3 steps, begin/end flags with and without ETFLAG, any finite float32 payload incl. denormals and -0): '
         'kind write = library writer bytes vs the Lean encoder and an independent python record walker; kind '
